@@ -385,6 +385,58 @@ def history_cases(tier):
     return out
 
 
+def big_text(shift, nclauses):
+    """A valid text of more than 2^20 characters.  All clause lines have the
+    same length (12), so that with the 12 values of `shift` (length of the
+    first comment line) every kind of position -- inside a number, on the
+    blank between two tokens, on the line break -- falls on every multiple of
+    every power of two below the length of the text, whatever block size a
+    reader uses."""
+    clauses = []
+    lines = ['c' + 'x' * shift, 'p cnf 99 %d' % nclauses]
+    for i in range(nclauses):
+        a, b, c = 10 + i % 90, 10 + (i * 7) % 90, 10 + (i * 13 + 5) % 90
+        cl = [a, -b, c]
+        clauses.append(cl)
+        lines.append('%d %d %d 0' % tuple(cl))       # 2+1+3+1+2+1+1 = 11 chars + newline
+    return '\n'.join(lines) + '\n', clauses
+
+
+def check_bigtext(case, tmp, R=None):
+    text, clauses = big_text(case['shift'], case['nclauses'])
+    out, _ = read_text(text, case['mode'], tmp)
+    if R is not None:
+        R.stats['big_texts_read'] += 1
+        R.stats['big_text_characters'] += len(text)
+    if out[0] != 'ok':
+        return [{'key': 'reader:big-text:rejected', 'case': case,
+                 'what': 'a valid text of %d characters is refused: %r' % (len(text), out[1:])}]
+    if out[1] != 99 or out[2] != clauses:
+        k = next((i for i, (x, y) in enumerate(zip(out[2], clauses)) if x != y),
+                 min(len(out[2]), len(clauses)))
+        return [{'key': 'reader:big-text:content', 'case': case,
+                 'what': 'text of %d characters: %d variables, %d clauses read; clause #%d is %r, '
+                         'written %r' % (len(text), out[1], len(out[2]), k, out[2][k:k + 1],
+                                         clauses[k:k + 1])}]
+    return []
+
+
+def run_bigtext(args, R):
+    """Texts beyond any reader block size (see big_text)."""
+    preload()
+    tmp, rep = Tmp(), Reporter(R)
+    try:
+        for shift in args['shifts']:
+            for rmode in args['modes']:
+                case = {'kind': 'bigtext', 'shift': shift, 'nclauses': args['nclauses'], 'mode': rmode}
+                R.nt = True
+                vs = check_bigtext(case, tmp, R)
+                R.case(sample=case if shift == 0 else None, nontrivial=True)
+                rep.extend(vs)
+    finally:
+        tmp.close()
+
+
 def run_history(args, R):
     preload()
     tmp, rep = Tmp(), Reporter(R)
@@ -817,6 +869,8 @@ def replay(case):
             return check_write(case, tmp)
         if kind in ('cli-read', 'cli-roundtrip'):
             return check_cli(case, tmp)
+        if kind == 'bigtext':
+            return check_bigtext(case, tmp)
         raise KeyError(kind)
     finally:
         tmp.close()
@@ -958,6 +1012,10 @@ def shards(tier, seed):
         out.append(('wcat%02d' % i, 'run_writer_catalogue', {'recs': chunk}))
     for i, chunk in enumerate(scope.stripe(history_cases(tier), 8)):
         out.append(('whist%02d' % i, 'run_history', {'cases': chunk}))
+    for shift in range(12):
+        out.append(('big%02d' % shift, 'run_bigtext',
+                    {'shifts': [shift], 'nclauses': 180000 if thorough else 90000,
+                     'modes': ['stringio', 'path'] if (thorough or shift % 4 == 0) else ['stringio']}))
     # (c) CLI
     for i, chunk in enumerate(scope.stripe(cli_cases(tier), 4)):
         out.append(('cli%d' % i, 'run_cli_cases', {'cases': chunk}))
